@@ -64,6 +64,12 @@ def scan (env : Str → Str) : Mode → Str → Str
          else subst env acc ++ scan env .out cs)
       else scan env (.name (acc ++ [c])) cs
 
+/-- the text a partial match has consumed so far -/
+def pending : Mode → Str
+  | .out => []
+  | .dollar => ['$']
+  | .name acc => '$' :: '{' :: acc
+
 /-- `expandEnvVarsInString` -/
 def expand (env : Str → Str) (s : Str) : Str := scan env .out s
 
@@ -176,6 +182,12 @@ inductive Err where
   | noDelimiter    -- "programming error -- missing delimiter for slice field"
   deriving Repr, DecidableEq
 
+instance {ε α : Type} [DecidableEq ε] [DecidableEq α] : DecidableEq (Except ε α)
+  | .ok a, .ok b => if h : a = b then isTrue (by rw [h]) else isFalse (fun e => h (by injection e))
+  | .error a, .error b => if h : a = b then isTrue (by rw [h]) else isFalse (fun e => h (by injection e))
+  | .ok _, .error _ => isFalse (fun e => by injection e)
+  | .error _, .ok _ => isFalse (fun e => by injection e)
+
 /-- `applyCmdEnvTags` for one tagged field: the options in tag order, the first with a non-zero
 value is applied.  A slice value is rebuilt from **element 0 only**, split at the delimiter. -/
 def applyOpts (k : Kind) (cur : Val) : List OptSrc → Except Err Val
@@ -228,6 +240,9 @@ structure Desc where
   dflt : Val
   /-- literal validated in place of an empty value (`validateConfigs`: the three API keys) -/
   placeholder : Option Str := none
+  /-- the field's yaml tag has `omitempty`: a zero value does not appear in the re-marshalled
+  config that validation pass 2 looks at -/
+  omitEmpty : Bool := false
   deriving Repr
 
 structure Src where
@@ -252,9 +267,11 @@ def withPlaceholder (d : Desc) (v : Val) : Val :=
 def checkedFirst (s : Src) (env : Str → Str) : Option Val :=
   (mapFiles s.files).map (expandVal env)
 
-/-- the value validation pass 2 checks -/
-def checkedFinal (d : Desc) (s : Src) (env : Str → Str) : Except Err Val :=
-  (resolve d s).map fun r => expandVal env (withPlaceholder d r)
+/-- the value validation pass 2 checks (`none`: the setting is not in the re-marshalled config) -/
+def checkedFinal (d : Desc) (s : Src) (env : Str → Str) : Except Err (Option Val) :=
+  (resolve d s).map fun r =>
+    let v := withPlaceholder d r
+    if d.omitEmpty && isZero v then none else some (expandVal env v)
 
 inductive Outcome where
   | rejected (pass : Nat) (v : Val)   -- refuses to start: the validator objected to `v`
@@ -262,24 +279,25 @@ inductive Outcome where
   | failed (e : Err)
   deriving Repr, DecidableEq
 
-def ofExcept : Except Err Val → Outcome
+def outcomeOf : Except Err Val → Outcome
   | .ok v => .accepted v
   | .error e => .failed e
+
+/-- validation pass 2 followed by the actual load -/
+def finalPass (d : Desc) (s : Src) (env : Str → Str) (bad : Val → Bool) : Outcome :=
+  match checkedFinal d s env with
+  | .error e => .failed e
+  | .ok none => outcomeOf (used d s env)
+  | .ok (some v2) => if bad v2 then .rejected 2 v2 else outcomeOf (used d s env)
 
 /-- `newFileConfig` with validation on; `bad v`: the field's validator reports an error for `v`. -/
 def loadValidated (d : Desc) (s : Src) (env : Str → Str) (bad : Val → Bool) : Outcome :=
   match checkedFirst s env with
-  | some v1 => if bad v1 then .rejected 1 v1 else
-    (match checkedFinal d s env with
-     | .error e => .failed e
-     | .ok v2 => if bad v2 then .rejected 2 v2 else ofExcept (used d s env))
-  | none =>
-    (match checkedFinal d s env with
-     | .error e => .failed e
-     | .ok v2 => if bad v2 then .rejected 2 v2 else ofExcept (used d s env))
+  | some v1 => if bad v1 then .rejected 1 v1 else finalPass d s env bad
+  | none => finalPass d s env bad
 
 /-- `newFileConfig` with `--no-validate` -/
-def loadUnvalidated (d : Desc) (s : Src) (env : Str → Str) : Outcome := ofExcept (used d s env)
+def loadUnvalidated (d : Desc) (s : Src) (env : Str → Str) : Outcome := outcomeOf (used d s env)
 
 /-! ## The documented reading of a list-valued option
 
